@@ -117,7 +117,7 @@ func rulesC07(e *Engine, r *Report) {
 	}
 
 	// ---------------------------------------------------------------- R07.3
-	r.Rule("R07.3", "nothing is forgotten unconfirmed: FileCache.Remove is called only (a) for a file the store now ignores, (b) for a file that no longer exists (IsNotExist of the Sync error), (c) for a done file after Store.Remove succeeded under canDelete; the sites are frozen")
+	r.Rule("R07.3", "nothing is forgotten unconfirmed: FileCache.Remove is called only (a) for a file the store now ignores, (b) for a file that no longer exists (IsNotExist of the Sync or Open error; since F55 also at start-up and in the retry stage, where such a file used to be marked done), (c) for a done file after Store.Remove succeeded under canDelete; the sites are frozen")
 	{
 		sites := e.InvokeSites("sts", "FileCache", "Remove")
 		var mod []Site
@@ -140,8 +140,8 @@ func rulesC07(e *Engine, r *Report) {
 				},
 				"store ignores the file | file no longer exists | done, deletable and deleted")
 		}
-		r.Min("R07.3", "FileCache.Remove sites in package client", len(mod), 4)
-		r.Check(len(mod) <= 4, "R07.3", "FileCache.Remove sites are the four confirmed ones", "", fmt.Sprintf("%d sites found; a new site must be confirmed by reading: %s", len(mod), strings.Join(siteKeys(e, mod), ", ")), len(mod), siteKeys(e, mod)...)
+		r.Min("R07.3", "FileCache.Remove sites in package client", len(mod), 6)
+		r.Check(len(mod) <= 6, "R07.3", "FileCache.Remove sites are the six confirmed ones", "", fmt.Sprintf("%d sites found; a new site must be confirmed by reading: %s", len(mod), strings.Join(siteKeys(e, mod), ", ")), len(mod), siteKeys(e, mod)...)
 	}
 
 	// ---------------------------------------------------------------- R07.4
